@@ -9,6 +9,7 @@ From Coq Require Import List ZArith Bool.
 From PV Require Import lib.Sx lib.Str model.TextNodes model.TextWrite model.TextRead model.TextStyle.
 From PV Require Import spec.SpecTextXml spec.SpecTextStyle proofs.TextStyleFacts.
 From PV Require Import proofs.TextPayloadFacts proofs.TextRoundtripFacts proofs.TextAttrFacts proofs.TextAttrRoundFacts.
+From PV Require Import spec.SpecTextChain proofs.TextChainFacts.
 Import ListNotations.
 Open Scope Z_scope.
 
@@ -105,6 +106,62 @@ Theorem C11_legacy_roundtrip_flags_color : forall ns, nodes_ok color_style ns = 
             balanced (flat_map (dfxp_nodes true) t) = true.
 Proof. exact legacy_roundtrip_flags_c. Qed.
 Print Assumptions C11_legacy_roundtrip_flags_color.
+
+(* ---- wave 7 (round 2): CLOSURE and CROSS-FORMAT CHAINS on the models ----
+   What the reader model returns for a written payload is again in the writers' domain: texts over XML Char without CR,
+   dictionaries without colour, spans flat and balanced with the END NODE REPEATING THE START NODE (flat_balanced) ... *)
+Theorem C11_dfxp_roundtrip_closed : forall region ns, nodes_ok plain_style ns = true -> flat_balanced ns = true ->
+  exists t, content_parse (dfxp_payload (extra_of region) ns) = Some t /\
+            nodes_ok plain_style (flat_map (dfxp_nodes true) t) = true /\
+            flat_balanced (flat_map (dfxp_nodes true) t) = true /\
+            ok_flags m_i ns (flat_map (dfxp_nodes true) t) = true.
+Proof. exact dfxp_roundtrip_closed. Qed.
+Print Assumptions C11_dfxp_roundtrip_closed.
+
+Theorem C11_sami_roundtrip_closed : forall ns, nodes_ok plain_style ns = true -> flat_balanced ns = true ->
+  exists t, content_parse (sami_payload ns) = Some t /\
+            nodes_ok plain_style (flat_map (sami_nodes true) t) = true /\
+            flat_balanced (flat_map (sami_nodes true) t) = true /\
+            ok_flags m_ibu ns (flat_map (sami_nodes true) t) = true.
+Proof. exact sami_roundtrip_closed. Qed.
+Print Assumptions C11_sami_roundtrip_closed.
+
+(* ... hence the conversions compose: DFXP document -> SAMI document -> DFXP document (every step: writer model, strict
+   parser, reader model): every step is well-formed, the italic characters after two and after three steps are the authored
+   ones, the final nodes are flat-balanced and in the domain again (so any longer chain follows by the same argument) *)
+Theorem C11_chain_dfxp_sami_dfxp : forall r1 r2 ns, nodes_ok plain_style ns = true -> flat_balanced ns = true ->
+  exists n1 n2 n3,
+    rd_dfxp (dfxp_payload (extra_of r1) ns) = Some n1 /\
+    rd_sami (sami_payload n1) = Some n2 /\
+    rd_dfxp (dfxp_payload (extra_of r2) n2) = Some n3 /\
+    ok_flags m_i ns n2 = true /\ ok_flags m_i ns n3 = true /\ flat_balanced n3 = true /\ nodes_ok plain_style n3 = true.
+Proof. exact chain_dfxp_sami_dfxp. Qed.
+Print Assumptions C11_chain_dfxp_sami_dfxp.
+
+Theorem C11_chain_sami_dfxp_sami : forall r ns, nodes_ok plain_style ns = true -> flat_balanced ns = true ->
+  exists n1 n2 n3,
+    rd_sami (sami_payload ns) = Some n1 /\
+    rd_dfxp (dfxp_payload (extra_of r) n1) = Some n2 /\
+    rd_sami (sami_payload n2) = Some n3 /\
+    ok_flags m_ibu ns n1 = true /\ ok_flags m_i ns n2 = true /\ ok_flags m_i ns n3 = true /\
+    flat_balanced n3 = true /\ nodes_ok plain_style n3 = true.
+Proof. exact chain_sami_dfxp_sami. Qed.
+Print Assumptions C11_chain_sami_dfxp_sami.
+
+(* the executable chain functions (run by the harness beside the real readers / writers, request 1110) *)
+Theorem C11_chain_dsd_flags : forall r1 r2 ns, nodes_ok plain_style ns = true -> flat_balanced ns = true ->
+  exists n3, chain_dsd (extra_of r1) (extra_of r2) ns = Some n3 /\ ok_flags m_i ns n3 = true /\ flat_balanced n3 = true.
+Proof. exact chain_dsd_flags. Qed.
+Print Assumptions C11_chain_dsd_flags.
+
+Theorem C11_chain_sds_flags : forall r ns, nodes_ok plain_style ns = true -> flat_balanced ns = true ->
+  exists n3, chain_sds (extra_of r) ns = Some n3 /\ ok_flags m_i ns n3 = true /\ flat_balanced n3 = true.
+Proof. exact chain_sds_flags. Qed.
+Print Assumptions C11_chain_sds_flags.
+
+Example C11_example_chain :
+  option_map flags (chain_dsd [] [] ex_nodes) = Some (map (fun p => (fst p, mask3 m_i (snd p))) (flags ex_nodes)).
+Proof. vm_compute. reflexivity. Qed.
 
 (* ---- non-vacuity ---- *)
 Example C11_example_flat : flat_balanced ex_nodes = true.
